@@ -31,13 +31,16 @@ import (
 	"errors"
 	"flag"
 	"fmt"
+	"hash/fnv"
 	"io"
 	"math/rand"
 	"os"
+	"reflect"
 	"sort"
 	"strings"
 	"sync"
 	"time"
+	"unsafe"
 
 	"github.com/google/go-containerregistry/pkg/name"
 	v1 "github.com/google/go-containerregistry/pkg/v1"
@@ -149,12 +152,43 @@ func idOf(o kruntime.Object) string {
 	return o.GetObjectKind().GroupVersionKind().Kind + "/" + n + "/" + digestOf(o)
 }
 
+// edge: the scenario (by a hash of its id, setEdge) runs on a PRE-RELEASE build of Crossplane, v1.18.0-rc.0.57.g1a2b3c4 (what
+// every build between two tags is), and its constraints sit right at that version: ">=v1.18.0" is not met by a release
+// candidate of v1.18.0, ">=v1.18.0-rc.0" is. Otherwise the running version is the release v1.18.0 and the unmet constraint
+// sits right above it. (Added after the seeded change C15-m7 - the pre-release part dropped before comparing - was missed.)
+var edge bool
+
+func setEdge(id string) {
+	h := fnv.New32a()
+	_, _ = h.Write([]byte(strings.SplitN(id, "/", 2)[0]))
+	edge = h.Sum32()%2 == 1
+}
+
+// versioner: the real version.Versioner, holding the running version of this scenario.
+func versioner() *version.Versioner {
+	v := version.New()
+	if edge {
+		f := reflect.ValueOf(v).Elem().FieldByName("version")
+		if !f.IsValid() || f.Kind() != reflect.String {
+			panic("version.Versioner has no string field 'version' any more: adapt the driver")
+		}
+		reflect.NewAt(f.Type(), unsafe.Pointer(f.UnsafeAddr())).Elem().SetString("v1.18.0-rc.0.57.g1a2b3c4")
+	}
+	return v
+}
+
 func constraint(cons string) *pkgmetav1.CrossplaneConstraints {
 	switch cons {
 	case "met":
+		if edge {
+			return &pkgmetav1.CrossplaneConstraints{Version: ">=v1.18.0-rc.0"}
+		}
 		return &pkgmetav1.CrossplaneConstraints{Version: ">=v1.0.0"}
 	case "unmet":
-		return &pkgmetav1.CrossplaneConstraints{Version: ">=v9.0.0"}
+		if edge {
+			return &pkgmetav1.CrossplaneConstraints{Version: ">=v1.18.0"}
+		}
+		return &pkgmetav1.CrossplaneConstraints{Version: ">v1.18.0"}
 	case "bad":
 		return &pkgmetav1.CrossplaneConstraints{Version: "not a >>> range"}
 	}
@@ -393,7 +427,7 @@ func tarLayer(files []tarFile) v1.Layer {
 
 func getImage(toks []string, cons, layout string, wantBuilt bool) *image {
 	built := wantBuilt && lintCleanForBuilder(toks, cons) && layout != "twobase" && !strings.HasPrefix(layout, "decoy")
-	key := fmt.Sprintf("%s|%s|%s|%v", strings.Join(toks, ","), cons, layout, built)
+	key := fmt.Sprintf("%s|%s|%s|%v|%v", strings.Join(toks, ","), cons, layout, built, edge)
 	if im, ok := images[key]; ok {
 		return im
 	}
@@ -484,14 +518,16 @@ func getImage(toks []string, cons, layout string, wantBuilt bool) *image {
 				dec.Write(mkDoc(t, 90+i, cons).YAML)
 			}
 			if layout == "decoy" {
-				layer = tarLayer([]tarFile{{"examples/" + xpkg.StreamFile, dec.Bytes()}, {xpkg.StreamFile, raw}})
+				// (... and a hidden sibling .package.yaml: a name that only differs by leading characters a careless
+				// normalisation strips - added after the seeded change C15-m8 was missed)
+				layer = tarLayer([]tarFile{{"." + xpkg.StreamFile, dec.Bytes()}, {"examples/" + xpkg.StreamFile, dec.Bytes()}, {xpkg.StreamFile, raw}})
 				d, err := layer.Digest()
 				if err != nil {
 					panic(err)
 				}
 				cfg.Labels[xpkg.Label(d.String())] = xpkg.PackageAnnotation
 			} else {
-				upper = tarLayer([]tarFile{{"examples/" + xpkg.StreamFile, dec.Bytes()}})
+				upper = tarLayer([]tarFile{{"." + xpkg.StreamFile, dec.Bytes()}, {"examples/" + xpkg.StreamFile, dec.Bytes()}})
 			}
 		}
 		img, err = mutate.AppendLayers(base, layer)
@@ -1452,7 +1488,7 @@ func (w *world) reconcile(p plan) {
 		revision.WithParserBackend(revision.NewImageBackend(&fetcher{w: w}, revision.WithDefaultRegistry(registry))),
 		revision.WithConfigStore(xpkg.NewImageConfigStore(w.c, namespace)),
 		revision.WithLinter(linterFor(w.rtype)),
-		revision.WithVersioner(version.New()),
+		revision.WithVersioner(versioner()),
 		revision.WithNamespace(namespace),
 		revision.WithServiceAccount("crossplane"),
 		revision.WithFeatureFlags(w.flags),
@@ -1757,6 +1793,7 @@ func main() {
 			os.Exit(2)
 		}
 		sum.Scenarios++
+		setEdge(sc.ID)
 		if sc.Layout != "" {
 			// a replay file / regression scenario: run exactly what it says
 			switch {
